@@ -181,7 +181,6 @@ def hash_cfgs():
     c.append(full(2, 5, _tier="thorough", _backends=["kissat"]))
     # G. kernel's EOF remap
     c.append(full(0, 6, CHECK_EOF=None))
-    c.append(full(2, 1, CHECK_EOF=None))
     return c
 
 HARNESSES.append(
